@@ -1,0 +1,126 @@
+//! Seams for deterministic simulation. Compiled only with the cargo feature
+//! `verif_hooks` (off by default); with the feature off nothing in this file
+//! exists and the call sites that shadow their variables are not compiled.
+//!
+//! A simulator installs a [`World`] in a thread-local slot. While a world is
+//! installed, every child process that `find` or `xargs` is about to start and
+//! the input stream of `xargs` are routed through it; with no world installed
+//! all functions fall through to the real behaviour.
+
+use std::cell::RefCell;
+use std::ffi::OsString;
+use std::fmt;
+use std::io::{self, Read};
+use std::path::PathBuf;
+use std::process::{Command, ExitStatus};
+
+/// What a call site is about to execute, as the child would receive it.
+#[derive(Clone, Debug, PartialEq, Eq)]
+pub struct SpawnRequest {
+    pub program: OsString,
+    pub args: Vec<OsString>,
+    pub cwd: Option<PathBuf>,
+    /// Explicitly configured environment changes (`None` = removed).
+    pub envs: Vec<(OsString, Option<OsString>)>,
+}
+
+/// The simulated outside world.
+pub trait World {
+    /// Decide the outcome of a child process. `real` runs the real
+    /// `Command::status()` when the world wants to pass through.
+    fn spawn(
+        &mut self,
+        req: &SpawnRequest,
+        real: &mut dyn FnMut() -> io::Result<ExitStatus>,
+    ) -> io::Result<ExitStatus>;
+
+    /// Replacement for the argument stream of xargs (`None` = keep the real one).
+    fn input(&mut self) -> Option<Box<dyn Read>> {
+        None
+    }
+}
+
+thread_local! {
+    static WORLD: RefCell<Option<Box<dyn World>>> = const { RefCell::new(None) };
+}
+
+/// Install a world for the current thread; returns the previous one.
+pub fn install(world: Box<dyn World>) -> Option<Box<dyn World>> {
+    WORLD.with(|w| w.borrow_mut().replace(world))
+}
+
+/// Remove the world of the current thread.
+pub fn uninstall() -> Option<Box<dyn World>> {
+    WORLD.with(|w| w.borrow_mut().take())
+}
+
+/// H1: the byte source xargs reads its arguments from.
+pub fn replace_input(real: Box<dyn Read>) -> Box<dyn Read> {
+    let replacement = WORLD.with(|w| w.borrow_mut().as_mut().and_then(|w| w.input()));
+    replacement.unwrap_or(real)
+}
+
+/// Anything that can be run to completion like `std::process::Command`.
+pub trait Spawnable {
+    fn as_command(&self) -> &Command;
+    fn real_status(&mut self) -> io::Result<ExitStatus>;
+}
+
+impl Spawnable for Command {
+    fn as_command(&self) -> &Command {
+        self
+    }
+    fn real_status(&mut self) -> io::Result<ExitStatus> {
+        self.status()
+    }
+}
+
+impl Spawnable for &mut argmax::Command {
+    fn as_command(&self) -> &Command {
+        self
+    }
+    fn real_status(&mut self) -> io::Result<ExitStatus> {
+        self.status()
+    }
+}
+
+/// H2/H3: shadows a command object at its call site so that `status()` asks
+/// the installed world first.
+pub struct SimCommand<C: Spawnable>(C);
+
+impl<C: Spawnable> SimCommand<C> {
+    pub fn new(command: C) -> Self {
+        Self(command)
+    }
+
+    pub fn status(&mut self) -> io::Result<ExitStatus> {
+        let Some(mut world) = WORLD.with(|w| w.borrow_mut().take()) else {
+            return self.0.real_status();
+        };
+        let cmd = self.0.as_command();
+        let req = SpawnRequest {
+            program: cmd.get_program().to_os_string(),
+            args: cmd.get_args().map(|a| a.to_os_string()).collect(),
+            cwd: cmd.get_current_dir().map(|p| p.to_path_buf()),
+            envs: cmd
+                .get_envs()
+                .map(|(k, v)| (k.to_os_string(), v.map(|v| v.to_os_string())))
+                .collect(),
+        };
+        let inner = &mut self.0;
+        let result = world.spawn(&req, &mut || inner.real_status());
+        WORLD.with(|w| {
+            let mut slot = w.borrow_mut();
+            if slot.is_none() {
+                *slot = Some(world);
+            }
+        });
+        result
+    }
+}
+
+impl<C: Spawnable> fmt::Debug for SimCommand<C> {
+    fn fmt(&self, f: &mut fmt::Formatter<'_>) -> fmt::Result {
+        fmt::Debug::fmt(self.0.as_command(), f)
+    }
+}
